@@ -37,6 +37,10 @@ def ovld_strategy(max_ops=30):
         cls = draw(st.sampled_from(["K0", "K1", "int"]))
         star = draw(st.booleans())
         sites = [{"fn": "recurse", "npos": 1, "kws": [], "star": star}, {"fn": "call_next", "npos": 1, "kws": [], "star": not star}]
+        which = draw(st.sampled_from(["both", "both", "recurse", "call_next"]))  # bodies that use only one of the two
+        if which != "both":
+            sites = [s for s in sites if s["fn"] == which] * 2
+            sites[1] = dict(sites[1], star=not sites[0]["star"])
         methods = [
             {"id": 0, "prio": 1, "kw": [], "sites": sites, "pos": [{"name": "a0", "ann": ["cls", "str"]}]},
             {"id": 1, "prio": 0, "kw": [], "sites": [], "pos": [{"name": "a0", "ann": ["cls", "int"]}]},
